@@ -23,7 +23,12 @@ DebugOk(r) ==
     /\ r.calls = 1
     /\ r.wrapOK                                      \* with Dialer.WrapConn: the application's wrapper is what comes back and carries all traffic
 
+\* a transport write failed on one side during the handshake: both peers fail (the one whose write failed
+\* because it did, the other because the stream ends) - unless the failing write index was never reached
+PairFaultOk(r) == r.c.ok = r.s.ok /\ r.deadlock = FALSE
+
 Ok(r) == CASE r.k = "pair" -> PairOk(r)
+           [] r.k = "pairfault" -> PairFaultOk(r)
            [] r.k = "indep" -> IndepOk(r)
            [] r.k = "debug" -> DebugOk(r)
            [] OTHER -> FALSE
